@@ -275,7 +275,10 @@ func (w *world) predict(pub *broker.Client, m *packet.Message) (wouldErr bool, b
 			return
 		}
 		if s.Active == pub {
-			wouldErr = true
+			// own queue: a live publisher is refused, a closing one (will) skips its own session
+			if !pub.VerifIsClosing() {
+				wouldErr = true
+			}
 		} else if !s.Active.VerifIsClosing() {
 			blockers = append(blockers, w.num[s.Active])
 		}
@@ -537,10 +540,10 @@ func (w *world) opPub(n int, m packet.Message) {
 	cl := w.ensureBare(n, "")
 	op := fmt.Sprintf("pub %d %s", n, hx.MsgText(&m))
 	wouldErr, blockers := w.predict(cl.c, &m)
-	if wouldErr && len(blockers) > 0 {
-		// ErrQueueFull or a wait, depending on Go's map order: not issued
-		w.c.Stat("skipped_ambiguous_publish", 1)
-		return
+	if wouldErr {
+		// the pre-check refuses the message before anything can wait
+		blockers = nil
+		w.c.Stat("publish_own_queue_full", 1)
 	}
 	ch := make(chan error, 1)
 	mm := m
@@ -853,6 +856,48 @@ func famTargets(c *hx.Ctx) {
 	}
 }
 
+// F1b: the publisher's own matching queue is full.  Live publisher: refused, nothing changes (not the retained
+// store either).  Closing publisher (its will, while a takeover waits for it): never refused, its own session is
+// skipped, every other matching session gets the message.  Observers: a temporary session, an offline stored one.
+func famOwnFull(c *hx.Ctx) {
+	x := hxs("x")
+	k := 0
+	for _, cap := range []int{1, 2} {
+		for _, q := range []int{0, 1, 2} {
+			for _, clean := range []string{"0", "1"} {
+				for _, ft := range [][2]string{{"a/+", "a/b"}, {"#", "b"}, {"a", "a"}} {
+					for _, closing := range []bool{false, true} {
+						k++
+						f, t := hxs(ft[0]), hxs(ft[1])
+						ops := []string{
+							"setup 1 " + x + " " + clean + " 0",
+							fmt.Sprintf("sub 1 %s,%d", f, (k+q)%3),
+							"setup 2 - 1 0", "sub 2 " + hxs("#") + ",1",
+							"setup 5 " + hxs("y") + " 0 0", "sub 5 " + hxs("#") + ",2", "term 5", "closed 5",
+						}
+						for i := 0; i < cap; i++ { // fill the publisher's own queue (and the observers' a little)
+							ops = append(ops, fmt.Sprintf("pub 9 %s,%s,%d,0", t, payload(), q), "deq 2", "deq 2")
+						}
+						if closing {
+							ops = append(ops, "setup 4 "+x+" "+[]string{"0", "1"}[k%2]+" 0") // connection 1 is closed, Setup 4 waits
+						}
+						ops = append(ops,
+							fmt.Sprintf("pub 1 %s,%s,%d,1", t, payload(), q), // live: refused; closing: the will
+							fmt.Sprintf("pub 1 %s,%s,%d,0", t, payload(), (q+1)%3),
+							"deq 2", "deq 2", "deq 1",
+							fmt.Sprintf("pub 1 %s,%s,%d,1", t, payload(), q))
+						if closing {
+							ops = append(ops, "finish")
+						}
+						ops = append(ops, "deq 1", "deq 4", "deq 2")
+						runHist(c, hist{cap: cap, ops: ops}, "ownfull")
+					}
+				}
+			}
+		}
+	}
+}
+
 // F2: retained publishes, then a fresh subscriber with every filter
 func famRetained(c *hx.Ctx) {
 	k := 0
@@ -1131,6 +1176,7 @@ func runMB(c *hx.Ctx) {
 		return
 	}
 	famTargets(c)
+	famOwnFull(c)
 	famRetained(c)
 	if c.Thorough() {
 		famExhaustive(c, 4)
